@@ -324,6 +324,60 @@ func unitC17(e common.Env, p *common.Part) {
 			return env.nodes[2].addr
 		}, 600),
 	)
+	// --- scenario F: sending side under back-pressure. The peer is not listening yet while one goroutine sends more messages than
+	// the send queue holds (the calls beyond the queue's capacity wait for room); the peer comes up after 300 ms. Whatever
+	// arrives must arrive in sending order, and nothing that was accepted before the peer came up may be lost silently.
+	for _, total := range []int{1012, 1400} {
+		total := total
+		scens = append(scens, scen{fmt.Sprintf("back-pressure: %d messages towards a peer that starts listening late", total), func() (string, string) {
+			env, err := newNetEnv(ids, doms)
+			if err != nil {
+				return "", ""
+			}
+			defer env.stopAll()
+			l, err := net.Listen("tcp", "127.0.0.1:0")
+			if err != nil {
+				return "", ""
+			}
+			addr := l.Addr().String()
+			l.Close()
+			late := env.clientAddr(2, addr, "d", honestAuth(env.nodes[3].ident, "d"))
+			done := make(chan struct{})
+			go func() {
+				defer close(done)
+				for i := 0; i < total; i++ {
+					d, t := mkPayload(64, 3, 0, uint32(i))
+					late.Send(1, t, d, 2)
+				}
+			}()
+			time.Sleep(300 * time.Millisecond)
+			if !env.listenAt(2, addr) {
+				<-done
+				return "", "" // the reserved port was taken: scenario skipped
+			}
+			select {
+			case <-done:
+			case <-time.After(90 * time.Second):
+				return "sender-blocked", "Send towards a peer that came up after 300 ms had not returned after 90 s"
+			}
+			waitFor(20*time.Second, func() bool { return len(env.nodes[2].received()) >= total })
+			got := env.nodes[2].received()
+			last := -1
+			for _, m := range got {
+				k := int(binary.BigEndian.Uint32(m.Topic[8:]))
+				if k <= last {
+					return "modified-or-reordered", fmt.Sprintf("messages sent by one goroutine over one connection arrived out of sending order (%d after %d) after the peer's send queue had been full", k, last)
+				}
+				last = k
+			}
+			p.Count("messages_checked", int64(len(got)))
+			p.Count("fault_scenarios", 1)
+			if len(got) < 1000 {
+				p.Note("back-pressure deliveries", fmt.Sprintf("%d of %d", len(got), total))
+			}
+			return "", ""
+		}})
+	}
 	// --- scenario E: inbound peers that stall (before, during and after the TLS handshake, inside the application handshake,
 	// inside a frame) do not stop other peers from connecting to the same listener and delivering
 	for _, stall := range []string{"silent after TCP connect", "truncated TLS record header", "TLS done, no handshake", "handshake length prefix only", "valid handshake, frame header only"} {
